@@ -1,6 +1,7 @@
 package main
 
 import (
+	"encoding/hex"
 	"fmt"
 	"sort"
 	"strings"
@@ -23,7 +24,7 @@ import (
 type seqEngine struct{}
 
 func init() {
-	register("seq", seqEngine{}, "C01", "C02", "C04", "C05", "C07", "C08", "C09", "C10", "C12", "C19")
+	register("seq", seqEngine{}, "C01", "C02", "C04", "C05", "C07", "C08", "C09", "C10", "C11", "C12", "C19")
 }
 
 // ---- API-level dump of a server ----
@@ -98,7 +99,7 @@ func dumpTree(r *Rig, rootH string) ([]DumpEnt, error) {
 					}
 					e.Attr, e.H, e.HasH = lk.Attr, lk.H, true
 				}
-				p := it.path + e.Name
+				p := it.path + escName(e.Name)
 				de := DumpEnt{Path: p, Kind: e.Attr.Type, Size: e.Attr.Size, FileID: e.FileID, H: e.H}
 				switch e.Attr.Type {
 				case kLNK:
@@ -372,6 +373,8 @@ func seqProfile(prop string, rng *simrt.Rng, tier string) (*Profile, map[string]
 	if th {
 		p.MaxOps = 300
 	}
+	// a third of the runs go through the XDR/RPC transport and the real server loop
+	k["rpc"] = int64(rng.Intn(3) / 2)
 	switch prop {
 	case "C01":
 		p.MinOps, p.MaxOps = 6, 30
@@ -471,6 +474,16 @@ func seqProfile(prop string, rng *simrt.Rng, tier string) (*Profile, map[string]
 		if rng.Chance(0.3) {
 			k["many_objects"] = 1 // more live objects than the inode cache holds
 		}
+	case "C11":
+		p.MinOps, p.MaxOps = 20, 90
+		p.PDead, p.PGarbage, p.PBadName = 0.1, 0.1, 0.2
+		p.PHuge = 0.1
+		p.MaxData = 32 << 10
+		k["fsck_every"] = 8
+		k["adversarial"] = 1
+		k["nospace"] = 1 // huge READs fill holes until the disk is full: running out of space is legitimate here
+		k["rpc"] = int64(rng.Intn(2))
+		disk = uint64(4000 + rng.Intn(8000))
 	case "C19":
 		p.MinOps, p.MaxOps = 15, 60
 		p.PLimit = 0.3
@@ -522,6 +535,44 @@ func (seqEngine) Gen(prop string, seed uint64, tier string) *Spec {
 		if rng.Chance(p.PRestart) {
 			g.emit(&Op{K: "restart"})
 			continue
+		}
+		if knobs["adversarial"] == 1 {
+			switch rng.Pick([]int{40, 8, 14, 4, 34}) {
+			case 0:
+				g.emit(g.advOp())
+				continue
+			case 1:
+				nm, _ := g.advName()
+				g.emit(&Op{K: []string{"mnt", "umnt", "umntall", "dump", "export", "mountnull"}[rng.Intn(6)], N: nm})
+				continue
+			case 2:
+				if knobs["rpc"] == 1 {
+					base := baseMessages()
+					g.emit(&Op{K: "rawmsg", Msg: hex.EncodeToString(g.mutateMsg(base[rng.Intn(len(base))]))})
+					continue
+				}
+			case 3:
+				if knobs["rpc"] == 1 {
+					// transport faults: a frame header that promises more than is sent, a header without
+					// the last-fragment bit, an oversized length; the client then drops the connection
+					var b []byte
+					switch rng.Intn(4) {
+					case 0:
+						b = []byte{0x80, 0, 0, 100, 1, 2, 3}
+					case 1:
+						b = []byte{0x00, 0, 0, 8, 0, 0, 0, 1, 0, 0, 0, 0}
+					case 2:
+						// a length far beyond what follows (kept at 1 MB: the RPC layer of the go-rpcgen
+						// dependency allocates whatever the header announces, up to 2 GB, which is outside
+						// go-nfsd and outside C11's "well-formed message"; see DESIGN.md)
+						b = []byte{0x80, 0x10, 0x00, 0x00, 9, 9}
+					default:
+						b = []byte{0x80}
+					}
+					g.emit(&Op{K: "rawbytes", Msg: hex.EncodeToString(b)})
+					continue
+				}
+			}
 		}
 		g.emit(g.next())
 	}
@@ -597,8 +648,26 @@ func sigOf(prefix, msg string) string {
 	return prefix + ":" + strings.TrimSpace(b.String())
 }
 
+// newRig starts a server incarnation for this run (with the RPC transport
+// when the run uses it).
+func (x *seqRun) newRig(d *simdisk.Disk, unstable bool) *Rig {
+	r := startServer(d, unstable, x.spec.knob("icache", 0), x.spec.knob("nshard", 0))
+	if x.spec.knob("rpc", 0) != 0 {
+		r.Conn = r.Connect()
+		x.res.count("rpc_connections", 1)
+	}
+	return r
+}
+
+func (x *seqRun) rpcCheck(in *In, out *Out) {
+	if out.RPCErr != "" {
+		x.fail("rpc", sigOf("rpc-"+in.K, out.RPCErr), describeIn(in)+": "+out.RPCErr)
+	}
+}
+
 func (x *seqRun) checked(in *In) *Out {
 	out := x.rig.Call(in)
+	x.rpcCheck(in, out)
 	if out.Crashed {
 		simrt.Fail("harness", "server incarnation died during a call")
 	}
@@ -695,8 +764,11 @@ func (x *seqRun) restart(i int) {
 		simrt.KillGroup(r2.Group)
 		x.res.count("image_restarts", 1)
 	}
+	if x.rig.Conn != nil {
+		x.rig.Conn.Close()
+	}
 	x.rig.Shutdown()
-	x.rig = startServer(x.d, x.rig.Unstable, x.spec.knob("icache", 0), x.spec.knob("nshard", 0))
+	x.rig = x.newRig(x.d, x.rig.Unstable)
 	after := rawSnapshot(x.rig, x.m)
 	if before != after {
 		x.fail("restart", "restart:differs", fmt.Sprintf("op %d: after a clean restart the server differs: %s", i, firstDiff(after, before)))
@@ -717,11 +789,11 @@ func isMutating(k string) bool {
 func (x *seqRun) main() {
 	spec := x.spec
 	ops := spec.Clients[0]
-	x.rig = startServer(x.d, spec.knob("unstable", 1) != 0, spec.knob("icache", 0), spec.knob("nshard", 0))
+	x.rig = x.newRig(x.d, spec.knob("unstable", 1) != 0)
 	rootH := rootHandle()
 	ra := x.rig.Call(&In{K: "getattr", Obj: rootH})
 	if ra.Status != 0 || ra.Attr == nil {
-		x.fail("model-mismatch", "root-getattr", "GETATTR of the root handle fails on a fresh file system")
+		x.fail("model-mismatch", "root-getattr", "GETATTR of the root handle fails on a fresh file system: "+ra.RPCErr)
 	}
 	x.m = NewModel(rootH, ra.Attr.FileID)
 	x.m.NoSpace = spec.knob("nospace", 0) != 0 || spec.knob("allocfail", 0) != 0
@@ -761,6 +833,11 @@ func (x *seqRun) main() {
 			x.stable = append(x.stable, false)
 			continue
 		}
+		if x.special(i, op) {
+			x.states = append(x.states, x.states[len(x.states)-1])
+			x.stable = append(x.stable, false)
+			continue
+		}
 		in := toIn(op, x.tbl, &x.m.Lim)
 		if in == nil {
 			x.res.count("ops_skipped", 1)
@@ -779,6 +856,7 @@ func (x *seqRun) main() {
 		if out.Crashed {
 			simrt.Fail("harness", "server incarnation died during a call")
 		}
+		x.rpcCheck(in, out)
 		before := x.m.NextID
 		if err := x.m.Step(in, out); err != nil {
 			x.fail("model-mismatch", sigOf(in.K, err.Error()), fmt.Sprintf("op %d %s: %s", i, describeIn(in), err.Error()))
